@@ -382,7 +382,15 @@ def main_check(prop, tier, seed):
     nshards = plan.get('shards', 1)
     budget = plan.get('budget_s', 60)
     wall_cap = plan.get('wall_cap_s', budget * 4 + 120)
-    merged = run_shards(prop, tier, seed, nshards, budget, wall_cap)
+    prepare = getattr(prop, 'prepare', None)
+    if prepare is not None:
+        os.environ.update(prepare(tier, seed) or {})
+    try:
+        merged = run_shards(prop, tier, seed, nshards, budget, wall_cap)
+    finally:
+        cleanup = getattr(prop, 'cleanup', None)
+        if cleanup is not None:
+            cleanup()
 
     # pinned witnesses of open findings are reproduced in every run
     finding_lines = []
